@@ -174,6 +174,9 @@ def reduced_ops(t):
 
 def cases(tier):
     for t in TYPES:
+        for n in (7, 8, 9, 16, 17, 100, 255, 256, 1000) if tier == "thorough" else (8, 9, 17, 300):
+            yield {"k": "sizes", "type": t, "n": n}
+    for t in TYPES:
         ops = ops_for(t, tier)
         for i in range(len(ops)):
             # a case = all histories starting with ops[i] (prefix closed)
@@ -362,7 +365,68 @@ def verify(r, sec, m, t, opk, stage):
     return True
 
 
+def many(t, n, k=0):
+    """n values of type t (cycling through the type's alphabet, shifted by k)"""
+    flat = [v for lst in VALS[t] for v in lst]
+    return [flat[(i + k) % len(flat)] for i in range(n)]
+
+
+def run_sizes(case):
+    """value lists and sections that are NOT small: lists longer than the initial storage of a property (8), two- and
+    three-digit lengths, growth and shrinkage across those sizes, and sections with a dozen properties / subsections"""
+    r = R()
+    t, n = case["type"], case["n"]
+    env.install_seams()
+    env.reset_execution()
+    path = env.fresh_path("c10s_")
+    f = nix.File.open(path, nix.FileMode.Overwrite)
+    try:
+        sec = f.create_section("s", "t")
+        sec.create_property("Z", [5])
+        m = SecModel()
+        hist = [("create", "p", "list", many(t, n)), ("extend", "p", "list", many(t, 1, 1)), ("extend", "p", "list", many(t, 9, 2)),
+                ("assign", "p", "list", many(t, max(1, n // 2), 3)), ("assign", "p", "list", many(t, n + 5, 4)), ("reopen", "-", "-", None),
+                ("extend", "p", "list", many(t, 300, 5)), ("assign", "p", "list", many(t, 3, 6)), ("clear", "p", "-", None),
+                ("extend", "p", "list", many(t, n, 7))]
+        # a dozen further properties and subsections (creation order != name order: q0, q1, q10, q11, q2 ...)
+        for i in range(12):
+            hist.append(("create", "q%d" % i, "list", many(t, i + 1, i)))
+        for i in range(12):
+            hist.append(("subsection", "u%d" % i, "-", None))
+        hist += [("dict-del", "q10", "-", None), ("dict-del", "q3", "-", None), ("create", "q3", "list", many(t, 2)), ("reopen", "-", "-", None)]
+        for op in hist:
+            r.evals += 1
+            r.nontrivial += 1
+            exp = model_step(m, op)
+            opk = "sizes-n%d:%s:%s" % (n, op[0], len(op[3]) if isinstance(op[3], list) else op[2])
+            if op[0] == "reopen":
+                f.close()
+                f = nix.File.open(path, nix.FileMode.ReadWrite)
+                sec = f.sections["s"]
+                exc = None
+            else:
+                try:
+                    impl_step(sec, op, t)
+                    exc = None
+                except Exception as e:  # noqa
+                    exc = e
+            if exp != "ok" or exc is not None:
+                r.viol("C10|%s|%s|%s" % (t, opk, "raised-" + type(exc).__name__ if exc else "model-refuses"),
+                       "type %s: %r (%d values) gave %r, model says %r" % (t, op[:3], len(op[3]) if isinstance(op[3], list) else 0, exc, exp), {})
+                return r
+            if not verify(r, sec, m, t, opk, "in-session"):
+                return r
+        r.traces = 1
+        r.outcomes.add("sizes")
+        return r
+    finally:
+        env.safe_close(f)
+        env.rm(path)
+
+
 def run_case(case):
+    if case.get("k") == "sizes":
+        return run_sizes(case)
     r = R()
     t = case["type"]
     allops = ops_for(t, case["tier"])
